@@ -1,4 +1,4 @@
-From Coq Require Import ZArith NArith List Bool Lia.
+From Coq Require Import ZArith NArith List Bool Lia Arith.
 From Verif Require Import C09.Model.
 Import ListNotations.
 Open Scope Z_scope.
@@ -82,6 +82,28 @@ Lemma final_one_newline : forall ds d0, (forall d, List.In d (d0 :: ds) -> ends_
   (exists c, List.In c (raw_text (d0 :: ds)) /\ c <> 10) ->
   ends_one (fmt_text (d0 :: ds)).
 Proof. intros ds d0 H Hc. unfold fmt_text. apply trim_ends_one; [apply raw_ends_newline; exact H | exact Hc]. Qed.
+
+(* ---- indentation ---- *)
+Lemma indent_length : forall w n, length (indent_of w n) = (n * w)%nat.
+Proof. intros; unfold indent_of, spaces; apply repeat_length. Qed.
+
+Lemma indent_strict : forall w n, (0 < w)%nat -> (length (indent_of w n) < length (indent_of w (S n)))%nat.
+Proof. intros w n H. rewrite !indent_length. cbn. lia. Qed.
+
+(* header at level n, body one level deeper: the writer emits exactly n*4 and (n+1)*4 spaces in front of them *)
+Lemma writer_block : forall st h hs b bs, at_start st = true ->
+  out (run st [W (h :: hs); NL; IN; W (b :: bs); NL]) =
+  out st ++ indent_of indent_width (ind st) ++ (h :: hs) ++ [10] ++ indent_of indent_width (S (ind st)) ++ (b :: bs) ++ [10].
+Proof.
+  intros st h hs b bs H. cbn [run fold_left step out ind at_start]. rewrite H.
+  repeat rewrite <- app_assoc. reflexivity.
+Qed.
+
+Lemma capped_agrees_small : forall n, (n <= 16)%nat -> capped_indent 4 64 n = indent_of 4 n.
+Proof. intros n H. unfold capped_indent, indent_of. rewrite Nat.min_l by lia. reflexivity. Qed.
+
+Lemma capped_not_strict : length (capped_indent 4 64 17) = length (capped_indent 4 64 16).
+Proof. reflexivity. Qed.
 
 (* ---- format_files ---- *)
 Lemma check_readonly : forall d fs, forallb negb (writes (format_files {| check := true; diff := d |} fs)) = true.
